@@ -135,6 +135,25 @@ def explore_table(case):
         # (a) finiteness in double precision
         if not math.isfinite(outs_ca[0][0]):
             res.fail(site=site, clause="finite_in_double", cls=cls, detail=dict(u=float(u), value=outs_ca[0][0]), sub="table", case=case)
+    # the table entry called with its argument in the numeric types a Python caller has at hand (exactly representable values on both sides
+    # of the switch): what is accepted is evaluated in double precision
+    for u in (0.5, 0.75, 2.0 ** -6, 2.0 ** -12, 2.0 ** -24):
+        # (differential against the plain float call: the double round-off of the closed forms themselves is not judged here, see ASSUMPTIONS)
+        try:
+            ex = float(np.asarray(fn(float(u)), dtype=float).reshape(-1)[0])
+        except Exception:  # noqa: BLE001
+            continue
+        for tname, mk in (("numpy.float64", lambda v: np.float64(v)), ("float64_array", lambda v: np.array([v])), ("float32_array", lambda v: np.array([v], dtype=np.float32)),
+                          ("float16_array", lambda v: np.array([v], dtype=np.float16)), ("zero_d_float32", lambda v: np.array(v, dtype=np.float32)), ("numpy.float32", lambda v: np.float32(v)), ("DM", lambda v: ca.DM(v))):
+            res.count("evaluations")
+            res.nontrivial.add(hash((key, squared, u, tname)))
+            try:
+                got = float(np.asarray(fn(mk(u)), dtype=float).reshape(-1)[0])
+            except Exception:  # noqa: BLE001 - a type the table refuses
+                res.count("refused")
+                continue
+            if not (math.isfinite(got) and abs(got - float(ex)) <= 1e-12 * max(1.0, abs(float(ex)))):
+                res.fail(site=site, clause="table_entry_in_double_precision_for_every_accepted_argument_type", cls=tname, detail=dict(u=u, argument_type=tname, got=got, float_call=float(ex)), sub="table", case=case)
     res.add_set("cells_entered", "%s:%d" % (site, len(sig_seen)))
     res.samples.append(dict(table=site, points=len(us), switch=[list(p) for p in pairs][:2]))
     return res
